@@ -178,8 +178,9 @@ func vfC34Run(v *vfT, c vfC34Case) {
 	var all, want [][]byte
 	starts := map[int]bool{} // offsets covered by start codes
 	seiAny, seiLast, mixed, big := false, false, false, false
+	tiny1, tiny1sei := false, false
 	for i, n := range c.Nals {
-		if (k == "h264" && len(n.Hdr) != 1) || (k == "h265" && len(n.Hdr) != 2) || n.Fill < 0 || n.Fill > 20000 {
+		if (k == "h264" && len(n.Hdr) != 1) || (k == "h265" && len(n.Hdr) != 2 && len(n.Hdr) != 1) || n.Fill < 0 || n.Fill > 20000 {
 			v.Skip("malformed case")
 		}
 		b := vfC34Bytes(n)
@@ -206,6 +207,12 @@ func vfC34Run(v *vfT, c vfC34Case) {
 		if len(b) > 4096 {
 			big = true
 		}
+		if len(b) == 1 {
+			tiny1 = true
+			if sei && !c.IncludeSEI {
+				tiny1sei = true
+			}
+		}
 	}
 	if c.IncludeSEI {
 		v.Label("sei-on")
@@ -228,6 +235,12 @@ func vfC34Run(v *vfT, c vfC34Case) {
 	}
 	if big {
 		v.Label("nal>4096")
+	}
+	if tiny1 {
+		v.Label("has-1-byte-unit")
+	}
+	if tiny1sei {
+		v.Label("has-1-byte-SEI/off")
 	}
 	// does a read boundary fall inside a start code?
 	{
@@ -258,6 +271,10 @@ func vfC34Run(v *vfT, c vfC34Case) {
 	for i := 0; i < len(want) && i < len(got); i++ {
 		if !bytes.Equal(got[i].Data, want[i]) {
 			v.Violation("C34/"+k+"/nal-bytes", "unit %d: got %s, framed %s (stream %d bytes, chunks %v)", i, vfC34Short(got[i].Data), vfC34Short(want[i]), len(stream), c.Chunks)
+		}
+		if k == "h265" && len(want[i]) < 2 {
+			v.Label("h265-1-byte-unit(fields-not-asserted)") // there is no second header byte to compare with
+			continue
 		}
 		if f := vfC34Fields(k, want[i]); got[i].Fields != f {
 			v.Violation("C34/"+k+"/header-fields", "unit %d (%s): parsed %s, header bits say %s", i, vfC34Short(want[i]), got[i].Fields, f)
@@ -349,8 +366,20 @@ func vfC34Gen(codec string) func(v *vfT) vfC34Case {
 				tid := rapid.IntRange(1, 7).Draw(t, "tid")
 				n.Hdr = []byte{f | byte(typ<<1) | byte(layer>>5), byte(layer<<3) | byte(tid)}
 			}
-			n.Body = rapid.SliceOfN(bodyByte, 0, 24).Draw(t, "body")
-			n.Fill = rapid.OneOf(rapid.Just(0), rapid.Just(0), rapid.IntRange(0, 300), rapid.IntRange(4000, 4200), rapid.IntRange(0, 10240)).Draw(t, "fill")
+			// size class: 1-byte unit (1/5), 2-byte unit (1/5), 3-byte unit (1/10), otherwise free
+			switch rapid.IntRange(0, 9).Draw(t, "sizeclass") {
+			case 0, 1:
+				n.Hdr = n.Hdr[:1] // H.264: header only; H.265: first header byte only (the unit type is in it)
+			case 2, 3:
+				if codec == "h264" {
+					n.Body = rapid.SliceOfN(bodyByte, 1, 1).Draw(t, "body1")
+				}
+			case 4:
+				n.Body = rapid.SliceOfN(bodyByte, 3-len(n.Hdr), 3-len(n.Hdr)).Draw(t, "body3")
+			default:
+				n.Body = rapid.SliceOfN(bodyByte, 0, 24).Draw(t, "body")
+				n.Fill = rapid.OneOf(rapid.Just(0), rapid.Just(0), rapid.IntRange(0, 300), rapid.IntRange(4000, 4200), rapid.IntRange(0, 10240)).Draw(t, "fill")
+			}
 			n.FSeed = rapid.Uint32().Draw(t, "fseed")
 			n.Four = rapid.Bool().Draw(t, "four")
 			c.Nals = append(c.Nals, n)
@@ -361,7 +390,7 @@ func vfC34Gen(codec string) func(v *vfT) vfC34Case {
 }
 
 var vfC34Opts = vfOpts{
-	Rule: "0..12 NAL units (all unit types, SEI over-represented and allowed at every position incl. last; header-only units up to 10 KiB; bodies biased towards 00/01/03 bytes and then forced free of 00 00 00 / 00 00 01 with a non-zero last byte), 3- or 4-byte start code per unit, read chunk sizes 1..8192 cycled, SEI inclusion on (1/3) or off (2/3), 1/6 additionally through a reader returning data together with io.EOF; non-trivial = at least two units",
+	Rule: "0..12 NAL units (all unit types, SEI over-represented and allowed at every position incl. last; 1-byte units (H.265: the first header byte alone), 2- and 3-byte units and units up to 10 KiB; bodies biased towards 00/01/03 bytes and then forced free of 00 00 00 / 00 00 01 with a non-zero last byte), 3- or 4-byte start code per unit, read chunk sizes 1..8192 cycled, SEI inclusion on (1/3) or off (2/3), 1/6 additionally through a reader returning data together with io.EOF; non-trivial = at least two units",
 	Assumptions: []string{
 		"the unit list the stream was built from is the reference; how the end of the stream is signalled after the last unit (io.EOF or another error) is counted, not asserted",
 		"the H.264 header byte 0x00 (forbidden=0, nal_ref_idc=0, type 0 'unspecified') and H.265 TemporalIdPlus1 = 0 (forbidden by the standard) are not generated; H.265 units starting with a 0x00 byte (TRAIL_N, layer 0) are",
